@@ -152,8 +152,13 @@ class Run:
 
     # -- drive the real code -------------------------------------------------
     def drive(self, driver, outdir=None, env=None):
+        sel = None
+        if ":" in driver:                       # "vectors:sqrt,cbrt" = the vectors driver restricted to these operations
+            driver, sel = driver.split(":", 1)
         outdir = outdir or os.path.join(self.work, "tr_" + driver)
         e = dict(os.environ, VERIF_DOMAIN_DIR=self.domain, VERIF_REPO=REPO)
+        if sel:
+            e["VERIF_VEC_OPS"] = sel
         if env:
             e.update(env)
         p = subprocess.run([self.harness, "drive", driver, self.tier, str(self.seed), outdir, str(NSHARDS)],
